@@ -120,6 +120,10 @@ class C01(Harness):
                 # absolute horizon = labels inside the series: s0 + n - 1 - (something); keep as offsets from s0
                 for h in fh:
                     ctx.assume(h <= nn - 1)
+                # the horizon may end before the end of the series (the tail belongs to neither part)
+                t = ctx.fresh_int("tail")
+                ctx.assume((t >= 0) & (t <= 2) & (fh[-1] + t <= nn - 1))
+                inp["tail"] = int(t)
         return inp
 
     # ------------------------------------------------------------------ scenario (either world)
@@ -170,7 +174,7 @@ class C01(Harness):
             fh = FH(np.array(inp["fh"]), is_relative=True)
         else:
             # absolute labels: s0 + n - 1 - (hK - h) ... use labels s0 + n - 1 - h_K + h_j  (inside the series, increasing)
-            labs = [s0 + n - 1 - inp["fh"][-1] + h for h in inp["fh"]]
+            labs = [s0 + n - 1 - inp.get("tail", 0) - inp["fh"][-1] + h for h in inp["fh"]]
             fh = FH(np.array(labs), is_relative=False)
         try:
             r = sp.temporal_train_test_split(y, X, fh=fh)
@@ -300,8 +304,9 @@ class C01(Harness):
             if out["rejected"]:
                 P.check("reject-iff-not-fit", False)
                 return
-            want_test = [s0 + n - 1 - hK + h for h in fh]
-            ntrain = (n - 1 - hK + fh[0])
+            tail = inp.get("tail", 0)
+            want_test = [s0 + n - 1 - tail - hK + h for h in fh]
+            ntrain = (n - 1 - tail - hK + fh[0])
         P.check("tts-train", len(out["ytrain_idx"]) == ntrain)
         if P.sym is False or isinstance(ntrain, int):
             pass
